@@ -224,6 +224,9 @@ def check(case, rec):
         _relational(before, after, _ident(ref.obs), _ident(ref.samp), "sort",
                     r)
         _unchanged(t, before, "sort", r)
+        _again_after_edit(case, "sort", (lambda x: x.sort(axis=axis))
+                          if f is None else
+                          (lambda x: x.sort(sort_f=f, axis=axis)))
         rec.nt(order != ids and _distinct_vectors(ref, axis))
         return
 
@@ -243,6 +246,7 @@ def check(case, rec):
         if msg:
             raise Violation("transpose-roundtrip", msg)
         _unchanged(t, before, "transpose", r)
+        _again_after_edit(case, "transpose", lambda x: x.transpose())
         rec.nt(len(ref.obs) != len(ref.samp) or
                ref.rows != want.rows)
         return
@@ -258,6 +262,7 @@ def check(case, rec):
         if after["type"] != before["type"]:
             raise Violation("copy-type", "%r -> %r" % (before["type"],
                                                        after["type"]))
+        _again_after_edit(case, "copy", lambda x: x.copy())
         rec.nt(any(x != 0 for row in ref.rows for x in row))
         return
 
@@ -265,6 +270,37 @@ def check(case, rec):
         _update_ids(case, op, t, before, ref, rec)
         return
     raise ValueError(op)
+
+
+def _edit_in_place(x):
+    """In-place edits that keep the table's matrix object where the library
+    allows it: values, IDs (same width) and metadata all change."""
+    x.transform(lambda v, i, md: v * 2, axis="observation", inplace=True)
+    for axis in ("observation", "sample"):
+        ids = [str(i) for i in x.ids(axis=axis)]
+        same = {i: (i[:-1] + ("~" if i[-1:] != "~" else "^")) for i in ids
+                if i}
+        if len(same) == len(ids) and len(set(same.values())) == len(ids):
+            x.update_ids(same, axis=axis, inplace=True)
+        ids = [str(i) for i in x.ids(axis=axis)]
+        x.add_metadata({ids[0]: {"edited": "yes"}}, axis=axis)
+
+
+def _again_after_edit(case, what, f):
+    """`f(table)` depends on what the table holds *now*: asked once, then
+    again after in-place edits, the second answer is the answer a table that
+    was never asked before gives after the same edits."""
+    a = gen.build(case["table"])
+    f(a)
+    _edit_in_place(a)
+    again = observe.snapshot(f(a))
+    b = gen.build(case["table"])
+    _edit_in_place(b)
+    first = observe.snapshot(f(b))
+    if again != first:
+        raise Violation("stale-result", "%s, in-place edits, %s again gives "
+                        "%r; the same edits then a first %s give %r" %
+                        (what, what, again, what, first))
 
 
 _NAT = re.compile(r"^([a-zA-Z_]*)(\d+)$")
